@@ -313,6 +313,44 @@ def check_gates(w, rep):
                 rep.incomplete(R, inst, unknown, where=w.where(MRP, "initialize"))
             else:
                 rep.ok(R, inst, fact={"conditions": len(seen)})
+    # (3) started at zero (x = 0 is the estimator's state without initialisation), a noise-free accelerometer sample of
+    #     any true attitude must be accepted: the state carries no information about the truth yet, so a test that
+    #     compares the sample with the state's prediction locks the filter out.  Constant folding at rational points.
+    if "correct_accel" in mod:
+        sim = w.mod(SIM)
+        ok, f = guarded(w, rep, "C12.API", "mrp.correct_accel() for its gate", lambda: w.callf(mod["correct_accel"]))
+        ok2, fs = guarded(w, rep, "C12.API", "sim.measure_accel() for the accel gate", lambda: w.callf(sim["measure_accel"])) if "measure_accel" in sim else (False, None)
+        if ok and ok2 and isinstance(f, cm.FunctionVal) and isinstance(fs, cm.FunctionVal) and "error_code" in (f.out_names or []) \
+                and {"x", "y_b", "g"} <= set(f.in_names or []) and (fs.in_names or [])[:2] == ["x", "g"]:
+            from fractions import Fraction as Fr
+            from ..pointscan import Scan
+            k = f.out_names.index("error_code")
+            gval = Fr(49, 5)
+            pts = [(Fr(1, 10), 0, 0), (0, Fr(1, 10), 0), (Fr(3, 50), Fr(4, 50), Fr(3, 10)), (0, 0, Fr(1, 5))]
+            rejected, folded = [], 0
+            for r in pts:
+                xt = cm.to_mat([Poly.const(v) for v in r] + [Poly()] * 3)
+                rest = [MatVal(i.r, i.c) for i in fs.ins[2:]]            # noise inputs: zero
+                y = fs(xt, cm.to_mat(gval), *rest)
+                y = y[0] if isinstance(y, (list, tuple)) else y
+                args = []
+                for nm, i in zip(f.in_names, f.ins):
+                    args.append(MatVal(i.r, i.c) if nm == "x" else y if nm == "y_b" else cm.to_mat(gval) if nm == "g" else i)
+                code = f(*args)[k].s()
+                v = Scan({}).poly(code)
+                if v is None:
+                    continue
+                folded += 1
+                if v != 0:
+                    rejected.append("true MRP %s -> error_code %s" % ("(%s)" % ", ".join(str(c) for c in r), v))
+            inst = "correct_accel: started at zero, a noise-free sample (|y| = g) of a tilted true attitude is accepted"
+            if rejected:
+                rep.fail(R, inst, "with the estimator state at zero the accelerometer correction rejects a valid sample: %s - the tilt is observed by this correction only, so the estimate never leaves zero (and the magnetometer correction stays blocked on the roll/pitch uncertainty)"
+                         % "; ".join(rejected), where=w.where(MRP, "correct_accel"))
+            elif folded:
+                rep.ok(R, inst, fact={"points": folded})
+            else:
+                rep.na(R, inst, "the error code does not fold to a constant at the rational test points")
     rep.floor(R, 2)
 
 
@@ -361,7 +399,56 @@ def check_schedule(w, rep):
                 rep.fail("C12.schedule", inst, o.msg, where=(o.file, o.line))
             elif o.status == "incomplete":
                 rep.incomplete("C12.schedule", inst, o.msg, where=(o.file, o.line))
+    check_sim_publish(w, rep)
     rep.floor("C12.schedule", 2)
+
+
+SIMNODE_REL = "cyecca/estimate/attitude/simulator.py"
+
+
+def check_sim_publish(w, rep):
+    """Simulator side of the schedule: a sensor's publication sits under its own rate gate and must not sit in the
+    else-branch of ANOTHER sensor's rate gate - for rate settings in which every simulator step is a step of that other
+    sensor (dt_sim >= its period) the publication would never happen."""
+    sf = w.fe.get(SIMNODE_REL)
+    parents = {}
+    for n in ast.walk(sf.tree):
+        for c in ast.iter_child_nodes(n):
+            parents[c] = n
+
+    def stamps(test):
+        return {a.attr for a in ast.walk(test) if isinstance(a, ast.Attribute) and a.attr.startswith("t_last") and isinstance(a.value, ast.Name) and a.value.id == "self"}
+
+    found = 0
+    for fn in ast.walk(sf.tree):
+        if not isinstance(fn, (ast.FunctionDef,)):
+            continue
+        for call in ast.walk(fn):
+            if not (isinstance(call, ast.Call) and isinstance(call.func, ast.Attribute) and call.func.attr == "publish"
+                    and isinstance(call.func.value, ast.Attribute) and isinstance(call.func.value.value, ast.Name) and call.func.value.value.id == "self"):
+                continue
+            pub = call.func.value.attr
+            pos, neg = set(), set()
+            cur = call
+            while cur in parents and parents[cur] is not fn:
+                par = parents[cur]
+                if isinstance(par, ast.If) and cur is not par.test:
+                    (neg if any(cur is x for x in par.orelse) else pos).update(stamps(par.test))
+                cur = par
+            if parents.get(cur) is not fn:
+                continue                                            # nested def: reported with that def
+            if not pos and not neg:
+                continue                                            # not rate limited (e.g. parameter broadcast)
+            found += 1
+            inst = "Simulator.%s: self.%s.publish is not disabled by another sensor's schedule" % (fn.name, pub)
+            other = neg - pos
+            if other:
+                rep.fail("C12.schedule", inst, "the publication happens only on steps on which the gate on self.%s is CLOSED: with a simulator step at or above that sensor's period the gate is open on every step and "
+                         "this topic is never published (the estimator never gets the sample: no initialisation / no correction)" % ", self.".join(sorted(other)), where=(SIMNODE_REL, call.lineno))
+            else:
+                rep.ok("C12.schedule", inst, fact={"own_gate": sorted(pos)})
+    if found < 2:
+        rep.na("C12.schedule", "Simulator: rate-limited publications found", "expected the IMU and magnetometer publications under their rate gates, found %d (publication moved out of the gated blocks: nothing to decide by this rule)" % found)
 
 
 def run(w, rep, tier):
